@@ -41,7 +41,7 @@ def _alpha(seed):
 
 M_SUFFIX = [a + b for a in "0123456789ABCDEFGH" for b in "0123456789"]
 KP = [("-", None)] + [(k, p) for k in M.TODO_KINDS for p in (None, "P0", "P9")]
-IDENTS = ["none", "zid", "mzid", "long", "zid-late-year", "mzid-late-year"]
+IDENTS = ["none", "zid", "mzid", "long", "zid-late-year", "mzid-late-year", "zid-leap-day"]
 TAILS = ["single", "cont", "bullet", "bullet_lookalike"]
 
 
@@ -68,6 +68,9 @@ def _mk_item(seed, kind, prio, ident, widx, tail):
         item.ident = ("long", "2023-11-05")
     elif ident == "zid-late-year":
         item.ident = ("zid", "691231#D4")  # two-digit years always mean 20YY
+    elif ident == "zid-leap-day":
+        item.mdate = "280229"
+        item.ident = ("zid", "240229#L0")
     elif ident == "mzid-late-year":
         item.mdate = "990101"
         item.ident = ("zid", "851224#E5")
@@ -122,14 +125,16 @@ def _page_multi(seed, layout, specs):
             itm.ident = ("zid", z[:-1] + "ABC"[n % 3] if len(items) <= 3 else z[:7] + M_SUFFIX[n % len(M_SUFFIX)])
     page = M.APage(title=[M.W("page"), M.W("title")])
     if layout == LONG_LAYOUT:
-        # many items: line numbers with two and three digits, several blocks and sections
-        third = max(1, len(items) // 3)
-        page.top_blocks = [items[:third]]
-        page.sections = [M.ASection(1, [M.W("Mid")], [items[third:2 * third][:6], items[third:2 * third][6:]] if len(items[third:2 * third]) > 6 else [items[third:2 * third]]),
-                         M.ASection(2, [M.W("Low"), M.W("er")], [items[2 * third:]])]
+        # many items: line numbers with two and three digits; a section with a
+        # child section is followed by a sibling section (file order != level order)
+        q = max(1, len(items) // 4)
+        parts = [items[:q], items[q:2 * q], items[2 * q:3 * q], items[3 * q:]]
+        page.top_blocks = [parts[0]]
+        mid = [parts[1][:6], parts[1][6:]] if len(parts[1]) > 6 else [parts[1]]
+        page.sections = [M.ASection(1, [M.W("Mid")], [b for b in mid if b]),
+                         M.ASection(2, [M.W("Low"), M.W("er")], [parts[2]]),
+                         M.ASection(1, [M.W("Tail")], [parts[3]])]
         page.sections = [s_ for s_ in page.sections if any(s_.blocks)]
-        for s_ in page.sections:
-            s_.blocks = [b for b in s_.blocks if b]
         return page
     if layout == "same_block":
         page.top_blocks = [items]
